@@ -374,6 +374,51 @@ pub fn run(rep: &mut Report) {
             }
         }
     }
+    // ---- SetSketcher::default() must be the sketcher of SetSketchParams::default() (differential, merges allowed both ways)
+    if rep.want("default") {
+        let seed = subseed(rep.seed, "C05/default", &[]);
+        let nd = rep.tier.pick(24u64, 400u64);
+        let fails: Vec<(u64, String)> = (0..nd)
+            .into_par_iter()
+            .filter_map(|i| {
+                let mut rng = rng_from(mix(&[seed, i]));
+                let n = [1usize, 3, 50, 3000, 20_000][(i % 5) as usize];
+                let ids = fresh_ids(&mut rng, n, 0);
+                let mut d = Sk::<u16>::default();
+                let mut e = Sk::<u16>::new(SetSketchParams::default(), Default::default());
+                d.sketch_slice(&ids).unwrap();
+                for x in &ids {
+                    e.sketch(x).unwrap();
+                }
+                let p = SetSketchParams::default();
+                if p.get_m() != 4096 || p.get_b() != 1.001 || p.get_a() != 20. || p.get_q() != 65534 {
+                    return Some((i, format!("SetSketchParams::default() is {:?}, documented m=4096, b=1.001, a=20, q=2^16-2", p)));
+                }
+                if observables(&d) != observables(&e) || d.get_b() != e.get_b() {
+                    return Some((i, format!("SetSketcher::default() and SetSketcher::new(SetSketchParams::default()) differ after sketching {} items", n)));
+                }
+                let more = fresh_ids(&mut rng, 100, 0);
+                let mut o = Sk::<u16>::new(SetSketchParams::default(), Default::default());
+                o.sketch_slice(&more).unwrap();
+                if d.merge(&o).is_err() || o.merge(&e).is_err() {
+                    return Some((i, "merge between a default sketcher and a sketcher built from the default parameters is refused".to_string()));
+                }
+                e.sketch_slice(&more).unwrap();
+                if regs(&d) != regs(&e) || regs(&o) != regs(&e) {
+                    return Some((i, "default sketcher merged with a sketch differs from streaming everything".to_string()));
+                }
+                None
+            })
+            .collect();
+        rep.evaluations += nd * 4;
+        rep.count("default_vs_explicit.cases", nd);
+        for i in 0..nd {
+            rep.distinct.insert(mix(&[i, 0xDEF]));
+        }
+        for (i, w) in fails.into_iter().take(3) {
+            rep.violation("C05/default-sketcher", "default", w, json!({"case": i}));
+        }
+    }
     // ---- targeted search (f32): items one of whose values sits exactly on an integer (r + j rounded to j + 1) would be
     // counted in the wrong level; pair each such item with many second items and compare with the join of singles
     if rep.want("smh-f32-boundary") {
